@@ -303,7 +303,7 @@ Inductive op :=
 | OForget (ino : N)
 | OBatchForget (ino1 ino2 : N)
 | OGetattr (ino : N)
-| OSetattr (ino : N) (uid gid : N)
+| OSetattr (ino : N) (uid gid : N) (valid : N)   (* valid = SetattrValid bits; passed through, never consulted by the Vfs *)
 | OFwd (m : N) (ino : N) (nm : name)               (* table driven: forward_table *)
 | ORename (olddir : N) (oldname : name) (newdir : N) (newname : name)
 | OLink (ino newparent : N) (nm : name)
@@ -442,7 +442,7 @@ Definition vfs_op (s : vfs) (c : ctx) (o : op) (a : ans) : outcome reply * list 
     | Err e => (Err e, [])
     | Panic => (Panic, [])
     end
-  | OSetattr ino uid gid =>
+  | OSetattr ino uid gid _valid =>   (* remap_attr_id runs whatever the valid bits say: both ids, always *)
     match get_real_rootfs s ino with
     | Ok (SLeft id) => (default_of m_setattr, [])
     | Ok (SRight b idx id) =>
